@@ -447,7 +447,7 @@ def run(ctx):
     swap_lint(ctx)
     from .C05 import krige_state
 
-    krige_state(ctx, rule="R12.5")
+    krige_state(ctx, rule="R12.5", raise_exits=False)  # C12 is about the frame the matrix is built in, not about rejected refreshes
 
     return (
         "Decides the structural clauses of C12: (R12.1) isometrize/anisometrize and the matrix builders are inverse pairs by construction (reversed order of paired inverse factors, "
